@@ -17,7 +17,47 @@ EXPLANATION = (
     "name parameter through the _iparam_namespace_* normalisers."
 )
 FILE = 'pywbem/_cim_operations.py'
-CONTRACTS = []
+K = FILE + '::WBEMConnection.'
+CLASS_SPECS = {'CIMInstanceName': {'host': Opt(Str), 'namespace': Opt(Str), 'classname': Str},
+               'CIMClassName': {'host': Opt(Str), 'namespace': Opt(Str), 'classname': Str}}
+CONN = Obj('WBEMConnection', default_namespace=Str, conn_id=Opt(Str), debug=Bool)
+# what the server must see: the caller's class name, and the caller's namespace or else the connection default
+TARGET = ('localobject.host is None '
+          'and localobject.classname == (objectname if isinstance(objectname, str) else objectname.classname) '
+          'and localobject.namespace == (self.default_namespace if isinstance(objectname, str) '
+          'or objectname.namespace is None else objectname.namespace)')
+SAME = 'result.host == self.host and result.namespace == self.namespace and result.classname == self.classname'
+_t = dict(trusted=True)
+methodcall_target = Contract(
+    K + '_methodcall', label='marshalled target',
+    params={'self': CONN, 'methodname': Str,
+            'objectname': Union(Ref('CIMInstanceName'), Ref('CIMClassName'), Str),
+            'Params': Lit(None), 'params': Rec()},
+    consts={'AUTO_GENERATE_SFCB_UEP_HEADER': Bool},
+    callees={'_verify_open': Contract(K + '_verify_open', raises={'ConnectionError': Raises()}, **_t),
+             'CIMInstanceName.copy': Contract('pywbem/_cim_obj.py::CIMInstanceName.copy', returns=Ref('CIMInstanceName'),
+                                              ensures=[('same-attributes', SAME)], **_t),
+             'CIMClassName.copy': Contract('pywbem/_cim_obj.py::CIMClassName.copy', returns=Ref('CIMClassName'),
+                                           ensures=[('same-attributes', SAME)], **_t),
+             'CIMClassName.__init__': Contract('pywbem/_cim_obj.py::CIMClassName.__init__', raises={},
+                                               ensures=[('attributes', 'self.host is host and self.namespace == namespace '
+                                                         'and self.classname == classname')], **_t),
+             'get_cimobject_header': Contract('pywbem/_cim_http.py::get_cimobject_header', returns=Str,
+                                              caller_requires=[TARGET], **_t),
+             'CIMInstanceName.tocimxml': Contract('pywbem/_cim_obj.py::CIMInstanceName.tocimxml', returns=Ref('Element'),
+                                                  caller_requires=[TARGET], **_t),
+             'CIMClassName.tocimxml': Contract('pywbem/_cim_obj.py::CIMClassName.tocimxml', returns=Ref('Element'),
+                                               caller_requires=[TARGET], **_t),
+             'wbem_request': Contract('pywbem/_cim_http.py::wbem_request', never_returns=True,
+                                      raises={'ConnectionError': Raises()}, **_t),
+             'toxml': Contract('external::Element.toxml', sig=['self'], returns=Str, **_t)},
+    opaque=['infer_type', 'paramvalue', 'infer_embedded_object'],
+    raises={'ValueError': Raises(), 'ConnectionError': Raises()},
+    notes='the path put into METHODCALL and into the CIMObject header names the class and namespace the caller named '
+          '(default namespace of the connection where the caller named none); trusted: CIMClassName/CIMInstanceName '
+          'constructor, copy() and namespace setter keep values as given for names without surrounding slashes (C05 bounded)',
+)
+CONTRACTS = [methodcall_target]
 # parameters of Iter*/convenience signatures that are not DSP0200 parameters of the call
 CONTROL_KEYWORDS = {'has_return_value', 'has_out_params', 'namespace'}
 NOT_MARSHALLED = {'self', 'namespace', 'context', 'MethodName', 'ObjectName', 'Params', 'params'}
